@@ -86,7 +86,9 @@ CLAIMS = {
             "(assert not crashitem: its book is empty, by 'nothing behind the shutdown marker' at whole-system level) - C17_sys_load_controller_never_raises: whichever event the "
             "controller takes, the iteration returns; "
             "no stand-off at any stage incl. start-up deaths is C02_sys_load_no_standoff_any_phase; exactly-once after crashes is C03_sys_load_accounting_at_end. "
-            "Partial: load only, equal collections (else F4), no undecodable message (else F7b); the other modes are validated by the whole-system simulation, not proved",
+            "ALL SIX MODES, whole system, hypothesis-free (C17_sys_death_handled_once_all_modes): a death notice taken from the queue is about the worker that posted it, that worker is still counted active "
+            "(_active_nodes.remove never raises KeyError) and nothing follows it; no death is handled twice. "
+            "Partial: 'never raises' in full for load only, equal collections (else F4), no undecodable message (else F7b); the other modes are validated by the whole-system simulation, not proved",
             "receiver model theorems by induction over the message stream, handler case analysis; whole-system invariant layers + totality of the scheduler functions under them (Lean 4) ; differential correspondence of the real process_from_remote; whole-system simulation with deaths at every lifecycle point and undecodable messages"),
     "C04": ("Lean theorems: per worker the receiver posts the worker's events exactly once in the order sent; a test report is published tagged with its worker and counted once; "
             "for any sequence of collection reports from any workers the published ones are the distinct texts in first-occurrence order, each counted once; WHOLE SYSTEM, every scheduler "
